@@ -1186,6 +1186,27 @@ def call_update_call(rnd, cases, k, suffix="cuc"):
     return out
 
 
+def flag_flip_first(rnd, cases, k, suffix="ff"):
+    """From single-statement cases `out = F(x, ..., flag=B, ...)` build `r0_ = F(x, ..., flag=not B, ...); out = F(x, ..., flag=B, ...)`:
+    the same call with the OTHER value of a boolean keyword (keepdims, include_initial, descending, stable) made first, in
+    the same process, on the same operands, must not influence the result (no memo may be keyed without the flag).
+    Oracle: the original oracle."""
+    import re as _re
+    out = []
+    pool = [c for c in cases if c.get("oracle") and c["impl"].startswith("out = ") and ";" not in c["impl"] and "\n" not in c["impl"]
+            and _re.search(r"\b(keepdims|include_initial|descending|stable)=(True|False)", c["impl"])]
+    rnd.shuffle(pool)
+    for c in pool[:k]:
+        body = c["impl"][6:]
+        flags = _re.findall(r"\b(keepdims|include_initial|descending|stable)=(True|False)", body)
+        name, val = rnd.choice(flags)
+        other = _re.sub(r"\b%s=%s" % (name, val), f"{name}={'False' if val == 'True' else 'True'}", body)
+        n = dict(c)
+        n.update({"id": f"{c['id']}-{suffix}", "impl": f"r0_ = {other}; out = {body}", "meta": dict(c["meta"], history="flag-flip-first", flipped=name)})
+        out.append(n)
+    return out
+
+
 def mixed_dtype_cases(rnd, n, prefix="MD"):
     """Binary element-wise calls whose operands have DIFFERENT dtypes of one kind (the library casts one or both
     operands before the kernel runs); values small so that every result is representable."""
